@@ -50,17 +50,17 @@ TABLE = {
             "Every documented rule is broken at every position of every base game; solve() must raise ValueError and the batch "
             "runner must record the message.", "deviation alphabet listed in DESIGN 2/C09", "2/C09"),
     "C10": ("explicit-state exploration of solve histories (BFS over operation sequences with canonical state de-duplication)",
-            "All histories up to depth 3 (thorough 4) over 9 operations (same/fresh object x pruned/unpruned solves, a batch run of the same description through run_games, validation and counting on "
+            "All histories up to depth 3 (thorough 4) over 12 operations (same/fresh object x pruned/unpruned solves, a batch run of the same description through run_games, three operations that solve a different description derived from this one in between, validation and counting on "
             "the persistent object, fresh solves with the root logger at DEBUG) on every game of the universes, with de-duplication of canonical "
             "states; after each step the description equals the pristine copy and the result equals the reference computed in a forked fresh process.",
-            "state = deep snapshot of description + object attributes + module globals", "2/C10"),
+            "state = deep snapshot of description + object attributes + module globals, class attributes and default-argument tuples", "2/C10"),
     "C11": ("exhaustive parameter-grid enumeration through the real CLI/file path with structural oracle",
             "Every parameter combination of the grid is run through roberta_generator.main(), the file is read back by the "
-            "solver's reader and each game is validated structurally and solved.", "grid bounds; termination only claimed on the solve grid", "2/C11"),
-    "C12": ("exhaustive enumeration of batch histories: all ordered selections of 0-3 (thorough 0-4) games from a 10-game alphabet",
+            "solver's reader (after it has read an unrelated file) and each game is validated structurally and solved.", "grid bounds; termination only claimed on the solve grid", "2/C11"),
+    "C12": ("exhaustive enumeration of batch histories: all ordered selections of 0-3 (thorough 0-4) games from a 15-game alphabet, and all ordered two-game batches of the family U-PAIR",
             "run_games on every ordered selection (also a second time on the same dictionary, and through main -f FILE -s); every entry equals the "
-            "solo solve of that game computed in a forked fresh process; failures are recorded and do not affect later games.",
-            "alphabet of 10 games (solvable, unsolvable, malformed; own prune_states keys; colliding names)", "2/C12"),
+            "solo solve of that game computed in a forked process of its own; failures are recorded and do not affect later games.",
+            "alphabet of 15 games (solvable, unsolvable, malformed; own prune_states keys; colliding names; re-typed twins)", "2/C12"),
     "C13": ("exhaustive group action: all state permutations x transition orders x renamings on stopping-game universes, metamorphic oracle",
             "Every presentation of every enumerated stopping game is solved and compared with the base presentation.",
             "tolerance 2*eps(G); boards at 1e-3", "2/C13"),
@@ -70,12 +70,13 @@ TABLE = {
     "C15": ("exhaustive seed/size grid, history exploration of generator call sequences, enumerated environment answers, full boundary product of parameter checks",
             "Range/shape over a seed x size x parameter grid, reproducibility over all call sequences up to depth 3 with foreign "
             "random calls interleaved, loose-tile frequency by enumerating an equidistributed grid of pseudo-random answers, and "
-            "the full boundary-class product of the eight range checks.", "grid bounds", "2/C15"),
+            "the full boundary-class product of the eight range checks; boards compared with per-parameter-set fresh processes and with the same calls in the "
+            "opposite order; the games written by main() compared (bisimulation) with the board gen_rnd_board returns for the same arguments.", "grid bounds", "2/C15"),
     "C16": ("exhaustive enumeration of input files (batch alphabet x stems x renderings) through main() with an independent report parser",
             "Every file is run through the real CLI with -s; the report is parsed independently and every field must read back to "
             "the value of the batch result.", "report layout assumptions (fixed label width)", "2/C16"),
     "C17": ("exhaustive enumeration of whole-percent parameter sets through the real CLI; injectivity by dictionary",
-            "prob_to_str for all k=1..99, main() for every k in each position, all 99^2 pairs and a boundary product; the created "
+            "prob_to_str for all k=1..99 on every double denoting k/100 (quotient, literal, arithmetic results, neighbouring doubles), main() for every k in each position, all 99^2 pairs and a boundary product; the created "
             "path must parse back to the parameters and the map must be injective.", "enumerated products", "2/C17"),
 }
 
